@@ -70,18 +70,13 @@ Theorem tool_assert_decided : (strip_safe_check = true /\ tool_safe_stmt) \/ str
 Proof. exact tool_assert_decided_l. Qed.
 Print Assumptions tool_assert_decided.
 
-(* ===== BEGIN block F8 (known finding show-nocolor-ansi): pretty_print_source ignores use_color.  ======================
-   AFTER THE FIX IS COMMITTED replace the theorem of this block by:
-     [Theorem] show_nocolor_clean : show_nocolor_clean_stmt.  Proof. exact (show_nocolor_clean_if eq_refl). Qed.  *)
-Theorem show_nocolor_refuted : show_nocolor_refuted_stmt.
-Proof. exact (show_nocolor_refuted_if eq_refl). Qed.
-Print Assumptions show_nocolor_refuted.
-(* ===== END block F8 ===== *)
+(* F8 (show-nocolor-ansi) was repaired by /repo commit 9e1765a: pretty_print_source now consults use_color.
+   Reverting that fix flips the generated fact highlight_respects_nocolor and breaks this proof. *)
+Theorem show_nocolor_clean : show_nocolor_clean_stmt.
+Proof. exact (show_nocolor_clean_if eq_refl). Qed.
+Print Assumptions show_nocolor_clean.
 
-(* ===== BEGIN block F14 (known finding colorwords-marker-assert): external_diff_render asserts on word-diff output. =====
-   AFTER THE FIX IS COMMITTED replace the theorem of this block by:
-     [Theorem] tool_assert_safe : tool_safe_stmt.  Proof. exact (tool_safe_if eq_refl). Qed.  *)
-Theorem tool_assert_refuted : tool_refuted_stmt.
-Proof. exact (tool_refuted_if eq_refl). Qed.
-Print Assumptions tool_assert_refuted.
-(* ===== END block F14 ===== *)
+(* F14 (colorwords-marker-assert) was repaired by /repo commit cf285eb: markers are not stripped from word diffs. *)
+Theorem tool_assert_safe : tool_safe_stmt.
+Proof. exact (tool_safe_if eq_refl). Qed.
+Print Assumptions tool_assert_safe.
